@@ -1767,7 +1767,9 @@ sf_read_raw		(SNDFILE *sndfile, void *ptr, sf_count_t bytes)
 
 	count = psf_fread (ptr, 1, bytes, psf) ;
 
-	if (count <= (psf->sf.frames - psf->read_current) * blockwidth)
+	/* count <= frames left * blockwidth, written so that a huge frame count from a malformed header cannot overflow. */
+	if (count / blockwidth < psf->sf.frames - psf->read_current
+			|| (count / blockwidth == psf->sf.frames - psf->read_current && count % blockwidth == 0))
 		psf->read_current += count / blockwidth ;
 	else
 	{	count = (psf->sf.frames - psf->read_current) * blockwidth ;
@@ -1825,7 +1827,9 @@ sf_read_short	(SNDFILE *sndfile, short *ptr, sf_count_t len)
 
 	count = psf->read_short (psf, ptr, len) ;
 
-	if (count <= (psf->sf.frames - psf->read_current) * psf->sf.channels)
+	/* count <= frames left * channels, written so that a huge frame count from a malformed header cannot overflow. */
+	if (count / psf->sf.channels < psf->sf.frames - psf->read_current
+			|| (count / psf->sf.channels == psf->sf.frames - psf->read_current && count % psf->sf.channels == 0))
 		psf->read_current += count / psf->sf.channels ;
 	else
 	{	count = (psf->sf.frames - psf->read_current) * psf->sf.channels ;
@@ -1875,7 +1879,9 @@ sf_readf_short		(SNDFILE *sndfile, short *ptr, sf_count_t frames)
 
 	count = psf->read_short (psf, ptr, frames * psf->sf.channels) ;
 
-	if (count <= (psf->sf.frames - psf->read_current) * psf->sf.channels)
+	/* count <= frames left * channels, written so that a huge frame count from a malformed header cannot overflow. */
+	if (count / psf->sf.channels < psf->sf.frames - psf->read_current
+			|| (count / psf->sf.channels == psf->sf.frames - psf->read_current && count % psf->sf.channels == 0))
 		psf->read_current += count / psf->sf.channels ;
 	else
 	{	count = (psf->sf.frames - psf->read_current) * psf->sf.channels ;
@@ -1933,7 +1939,9 @@ sf_read_int		(SNDFILE *sndfile, int *ptr, sf_count_t len)
 
 	count = psf->read_int (psf, ptr, len) ;
 
-	if (count <= (psf->sf.frames - psf->read_current) * psf->sf.channels)
+	/* count <= frames left * channels, written so that a huge frame count from a malformed header cannot overflow. */
+	if (count / psf->sf.channels < psf->sf.frames - psf->read_current
+			|| (count / psf->sf.channels == psf->sf.frames - psf->read_current && count % psf->sf.channels == 0))
 		psf->read_current += count / psf->sf.channels ;
 	else
 	{	count = (psf->sf.frames - psf->read_current) * psf->sf.channels ;
@@ -1983,7 +1991,9 @@ sf_readf_int	(SNDFILE *sndfile, int *ptr, sf_count_t frames)
 
 	count = psf->read_int (psf, ptr, frames * psf->sf.channels) ;
 
-	if (count <= (psf->sf.frames - psf->read_current) * psf->sf.channels)
+	/* count <= frames left * channels, written so that a huge frame count from a malformed header cannot overflow. */
+	if (count / psf->sf.channels < psf->sf.frames - psf->read_current
+			|| (count / psf->sf.channels == psf->sf.frames - psf->read_current && count % psf->sf.channels == 0))
 		psf->read_current += count / psf->sf.channels ;
 	else
 	{	count = (psf->sf.frames - psf->read_current) * psf->sf.channels ;
@@ -2041,7 +2051,9 @@ sf_read_float	(SNDFILE *sndfile, float *ptr, sf_count_t len)
 
 	count = psf->read_float (psf, ptr, len) ;
 
-	if (count <= (psf->sf.frames - psf->read_current) * psf->sf.channels)
+	/* count <= frames left * channels, written so that a huge frame count from a malformed header cannot overflow. */
+	if (count / psf->sf.channels < psf->sf.frames - psf->read_current
+			|| (count / psf->sf.channels == psf->sf.frames - psf->read_current && count % psf->sf.channels == 0))
 		psf->read_current += count / psf->sf.channels ;
 	else
 	{	count = (psf->sf.frames - psf->read_current) * psf->sf.channels ;
@@ -2091,7 +2103,9 @@ sf_readf_float	(SNDFILE *sndfile, float *ptr, sf_count_t frames)
 
 	count = psf->read_float (psf, ptr, frames * psf->sf.channels) ;
 
-	if (count <= (psf->sf.frames - psf->read_current) * psf->sf.channels)
+	/* count <= frames left * channels, written so that a huge frame count from a malformed header cannot overflow. */
+	if (count / psf->sf.channels < psf->sf.frames - psf->read_current
+			|| (count / psf->sf.channels == psf->sf.frames - psf->read_current && count % psf->sf.channels == 0))
 		psf->read_current += count / psf->sf.channels ;
 	else
 	{	count = (psf->sf.frames - psf->read_current) * psf->sf.channels ;
@@ -2149,7 +2163,9 @@ sf_read_double	(SNDFILE *sndfile, double *ptr, sf_count_t len)
 
 	count = psf->read_double (psf, ptr, len) ;
 
-	if (count <= (psf->sf.frames - psf->read_current) * psf->sf.channels)
+	/* count <= frames left * channels, written so that a huge frame count from a malformed header cannot overflow. */
+	if (count / psf->sf.channels < psf->sf.frames - psf->read_current
+			|| (count / psf->sf.channels == psf->sf.frames - psf->read_current && count % psf->sf.channels == 0))
 		psf->read_current += count / psf->sf.channels ;
 	else
 	{	count = (psf->sf.frames - psf->read_current) * psf->sf.channels ;
@@ -2199,7 +2215,9 @@ sf_readf_double	(SNDFILE *sndfile, double *ptr, sf_count_t frames)
 
 	count = psf->read_double (psf, ptr, frames * psf->sf.channels) ;
 
-	if (count <= (psf->sf.frames - psf->read_current) * psf->sf.channels)
+	/* count <= frames left * channels, written so that a huge frame count from a malformed header cannot overflow. */
+	if (count / psf->sf.channels < psf->sf.frames - psf->read_current
+			|| (count / psf->sf.channels == psf->sf.frames - psf->read_current && count % psf->sf.channels == 0))
 		psf->read_current += count / psf->sf.channels ;
 	else
 	{	count = (psf->sf.frames - psf->read_current) * psf->sf.channels ;
